@@ -103,6 +103,8 @@ class CbMixin(object):
         self.c15_raises = list(raises)
         self.c15_async = is_async
         self.c15_journal = journal
+        # callbacks that trigger an event on ANOTHER model of the same machine: {callback id: (tag, event)}
+        self.c15_cross = {int(c): (int(t), int(e)) for c, t, e in env.get('cross', [])}
 
     def __getattr__(self, name):
         if name.startswith('cb_') and name[3:].isdigit() and 'c15_log' in self.__dict__:
@@ -125,11 +127,53 @@ class CbMixin(object):
             ed = args[0]
             own = int(ed.model is self and any(m is self for m in ed.machine.models))
         d['c15_log'].append([n, _canon_state(d.get('state')), bool(ret), own])
+        if not kwargs.get('_c15_defer') and not d.get('c15_async'):
+            other = self._c15_other(n)
+            if other is not None:
+                mach = d['c15_machine']
+                mach.__dict__['c15_busy'] = True
+                try:
+                    try:
+                        res = bool(other.trigger('e%d' % d['c15_cross'][n][1]))
+                    except Exception as e:  # noqa
+                        res = type(e).__name__
+                finally:
+                    mach.__dict__['c15_busy'] = False
+                d['c15_log'].append([n, 'cross', res, 10 + other.c15_tag])
         if n in d['c15_raises']:
             raise C15Error(n)
         return bool(ret)
 
+    def _c15_other(self, n):
+        """the model on which callback n triggers an event (None: no cross trigger, or one is already running)"""
+        d = self.__dict__
+        spec = d.get('c15_cross', {}).get(n)
+        mach = d.get('c15_machine')
+        if spec is None or mach is None or mach.__dict__.get('c15_busy'):
+            return None
+        left = mach.__dict__.get('c15_budget', 6)     # bounded per machine (queued machines could ping-pong for ever);
+        if left <= 0:                                  # the remaining budget travels with the pickled machine
+            return None
+        for x in mach.models:
+            if getattr(x, 'c15_tag', None) == spec[0] and x is not self:
+                mach.__dict__['c15_budget'] = left - 1
+                return x
+        return None
+
     async def _c15_acb(self, n, *args, **kwargs):
+        d = self.__dict__
+        other = self._c15_other(n)
+        if other is not None:
+            mach = d['c15_machine']
+            mach.__dict__['c15_busy'] = True
+            try:
+                try:
+                    res = bool(await other.trigger('e%d' % d['c15_cross'][n][1]))
+                except Exception as e:  # noqa
+                    res = type(e).__name__
+            finally:
+                mach.__dict__['c15_busy'] = False
+            d['c15_log'].append([n, 'cross', res, 10 + other.c15_tag])
         return self._c15_cb(n, *args, **kwargs)
 
 
@@ -220,6 +264,10 @@ def gen(rng, i, tier):
     env = _env_lists(g['env'], rng)
     ncb = _max_cb(machine)
     raises = [c for c in range(1, ncb + 1) if rng.random() < 0.04]
+    if ncb and rng.random() < 0.4:
+        # callbacks of one model that trigger an event on another model (tags 0..2), on original and copy alike
+        env['cross'] = [[rng.randint(1, ncb), rng.randrange(3), rng.randrange(max(1, nev))]
+                        for _ in range(rng.randint(1, 3))]
     if is_async:
         qmode = rng.choice([False, False, True, 'model', 'model'])
     else:
@@ -1070,6 +1118,8 @@ def stats(case, obs, dist):
         inc('snapshot_from_inside_the_contexts')
     if case.get('sep'):
         inc('custom_state_separator')
+    if case['env'].get('cross'):
+        inc('callbacks_trigger_other_models')
     if isinstance(obs, list) and len(obs) >= 3 and obs[2][:1] == [0]:
         inc('pickling_raised')
 
